@@ -465,10 +465,24 @@ class AtomicSaver:
 
     def __exit__(self, exc_type, exc_val, exc_tb):
         if self.part_file:
-            # Ensure data is flushed and synced to disk before closing
-            self.part_file.flush()
-            os.fsync(self.part_file.fileno())
-            self.part_file.close()
+            try:
+                # Ensure data is flushed and synced to disk before closing
+                self.part_file.flush()
+                os.fsync(self.part_file.fileno())
+                self.part_file.close()
+            except Exception:
+                # e.g. disk full: the save has failed, do not leave the
+                # part file behind to block every later attempt
+                try:
+                    self.part_file.close()
+                except Exception:
+                    pass
+                if self.rm_part_on_exc:
+                    try:
+                        os.unlink(self.part_path)
+                    except Exception:
+                        pass
+                raise
         if exc_type:
             if self.rm_part_on_exc:
                 try:
